@@ -14,6 +14,7 @@ import (
 	"os"
 	"os/signal"
 	"path/filepath"
+	"runtime"
 	"strings"
 	"sync"
 	"sync/atomic"
@@ -327,6 +328,89 @@ func runFileShort(rep *Report, v *Vec, variant string, rng *rand.Rand) {
 	}
 }
 
+// runCrossSink: sink A is held inside the reopen that follows a failed write (its log name is a symbolic link, first to
+// /dev/full, then to a FIFO nobody reads yet, so open(2) blocks) while sink B, an ordinary file sink, processes an event
+// of its own. Sinks share nothing: when A reports success, what it wrote is its own event's bytes, and B's file holds B's.
+// The scenario runs on a single P, the schedule on which goroutines hand per-P caches to each other.
+func runCrossSink(rep *Report, rng *rand.Rand) {
+	if _, err := os.Stat("/dev/full"); err != nil {
+		return
+	}
+	dir, err := os.MkdirTemp("", "verif-skx-")
+	if err != nil {
+		return
+	}
+	defer os.RemoveAll(dir)
+	link, fifo := filepath.Join(dir, "a", "a.log"), filepath.Join(dir, "fifo")
+	os.MkdirAll(filepath.Join(dir, "a"), 0o700)
+	if os.Symlink("/dev/full", link) != nil || syscall.Mkfifo(fifo, 0o600) != nil {
+		return
+	}
+	rep.Runs++
+	defer runtime.GOMAXPROCS(runtime.GOMAXPROCS(1))
+	mk := func(b []byte) *eventlogger.Event {
+		e := &eventlogger.Event{Type: "t", CreatedAt: time.Now(), Formatted: map[string][]byte{}}
+		e.FormattedAs(eventlogger.JSONFormat, b)
+		return e
+	}
+	a := &eventlogger.FileSink{Path: filepath.Join(dir, "a"), FileName: "a.log"}
+	b := &eventlogger.FileSink{Path: filepath.Join(dir, "b"), FileName: "b.log"}
+	if _, err := a.Process(context.Background(), mk(fmtBytes(rng, "json", 0))); err == nil {
+		rep.mm(Mismatch{What: "file sink whose file is /dev/full", Vector: "cross-sink", Expected: "error", Observed: "success"})
+		return
+	}
+	os.Remove(link)
+	if os.Symlink(fifo, link) != nil {
+		return
+	}
+	wantA, wantB := fmtBytes(rng, "json", 1), fmtBytes(rng, "json", 2)
+	aDone := make(chan error, 1)
+	go func() { _, err := a.Process(context.Background(), mk(wantA)); aDone <- err }()
+	select {
+	case err := <-aDone:
+		// the sink did not get as far as the FIFO (it gave up after the first failure): nothing to judge
+		_ = err
+		return
+	case <-time.After(150 * time.Millisecond):
+	}
+	if _, err := b.Process(context.Background(), mk(wantB)); err != nil {
+		rep.mm(Mismatch{What: "an ordinary file sink while another sink is inside its reopen", Vector: "cross-sink", Expected: "ok", Observed: err.Error()})
+	}
+	rd, err := os.OpenFile(fifo, os.O_RDONLY, 0)
+	if err != nil {
+		return
+	}
+	got := make(chan []byte, 1)
+	go func() { bs, _ := io.ReadAll(rd); got <- bs }()
+	var aErr error
+	select {
+	case aErr = <-aDone:
+	case <-time.After(10 * time.Second):
+		rep.mm(Mismatch{What: "file sink whose reopened file became writable", Vector: "cross-sink", Expected: "Process returns", Observed: "still blocked after 10 s"})
+		rd.Close()
+		return
+	}
+	// the sink keeps its file open: point its name somewhere else and let it reopen, so that the FIFO sees end of file
+	os.Remove(link)
+	os.Symlink("/dev/null", link)
+	a.Reopen()
+	var fromA []byte
+	select {
+	case fromA = <-got:
+	case <-time.After(5 * time.Second):
+		rd.Close()
+		fromA = <-got
+	}
+	rd.Close()
+	if aErr == nil && !bytes.Equal(fromA, wantA) {
+		rep.mm(Mismatch{What: "sink A reported success after reopening its file: what it wrote is its own event's bytes (another sink processed an event meanwhile)",
+			Vector: "cross-sink", Expected: fmt.Sprintf("%q", wantA), Observed: fmt.Sprintf("%q", fromA)})
+	}
+	if fb, _ := os.ReadFile(filepath.Join(dir, "b", "b.log")); !bytes.Equal(fb, wantB) {
+		rep.mm(Mismatch{What: "sink B's file holds exactly B's event", Vector: "cross-sink", Expected: fmt.Sprintf("%q", wantB), Observed: fmt.Sprintf("%q", fb)})
+	}
+}
+
 const unit = 70 * time.Millisecond
 
 func runChannelVec(rep *Report, v *Vec) {
@@ -504,6 +588,9 @@ func Run(file string, seed int64, concretisations int) (*Report, error) {
 		if len(rep.Samples) < 4 && rep.Vectors%61 == 3 {
 			rep.Samples = append(rep.Samples, v)
 		}
+	}
+	for i := 0; i < 3; i++ {
+		runCrossSink(rep, rng)
 	}
 	// channel vectors in parallel (they wait on real time)
 	var wg sync.WaitGroup
